@@ -28,6 +28,13 @@ func init() { register("C04", genC04) }
 
 var c04Debug = os.Getenv("VERIF_DEBUG") != ""
 
+// c04BothDomains makes c04Scenario run every ciphertext operation once in and once out of the NTT domain.
+var c04BothDomains = false
+
+// c04RecvLP, when >= the key's LevelP, fixes the LevelP at which the lazy hoisted receivers are allocated
+// (otherwise drawn at random in [key LevelP, max LevelP]).
+var c04RecvLP = -1
+
 func c04B2s(b bool) string {
 	if b {
 		return "1"
@@ -283,15 +290,18 @@ func c04Scenario(c *Ctx, ps *c04PS, cfg c04KeyCfg, heavy bool) {
 	eval := rlwe.NewEvaluator(ps.params, rlwe.NewMemEvaluationKeySet(rlk, gks...))
 
 	nct := 1
-	if heavy {
+	if heavy || c04BothDomains {
 		nct = 2
 	}
 	for rep := 0; rep < nct; rep++ {
 		lvl := cfg.lq
-		if rep > 0 || c.rng.Intn(3) == 0 {
+		if (rep > 0 && !c04BothDomains) || c.rng.Intn(3) == 0 {
 			lvl = c.rng.Intn(cfg.lq + 1)
 		}
 		isNTT := c.rng.Intn(2) == 0
+		if c04BothDomains {
+			isNTT = rep == 0
+		}
 		mode := 0
 		if c.rng.Intn(3) == 0 {
 			mode = 1 + c.rng.Intn(4)
@@ -380,9 +390,15 @@ func c04Scenario(c *Ctx, ps *c04PS, cfg c04KeyCfg, heavy bool) {
 				}
 				c.Probe("hoisted_eq_plain", fmt.Sprintf("%s galEl=%d", pargs, g), "C04-hoisted-neq-plain", detail)
 
-				// lazy: result modulo QP, scaled by P
+				// lazy: result modulo QP, scaled by P. The receiver may be allocated at a HIGHER LevelP than the
+				// key's (as ckks.RotateHoistedLazyNew, lintrans and inner sum do): only the key's levelP counts.
+				rp := cfg.lp + c.rng.Intn(len(ps.P)-cfg.lp)
+				if c04RecvLP >= cfg.lp && c04RecvLP < len(ps.P) {
+					rp = c04RecvLP
+				}
+				c.Count(fmt.Sprintf("hoistedlazy:keyLP%d:recvLP%d:maxLP%d", cfg.lp, rp, len(ps.P)-1))
 				ctQP := &rlwe.Element[ringqp.Poly]{}
-				ctQP.Value = []ringqp.Poly{ps.params.RingQP().AtLevel(lvl, cfg.lp).NewPoly(), ps.params.RingQP().AtLevel(lvl, cfg.lp).NewPoly()}
+				ctQP.Value = []ringqp.Poly{ps.params.RingQP().AtLevel(lvl, rp).NewPoly(), ps.params.RingQP().AtLevel(lvl, rp).NewPoly()}
 				ctQP.MetaData = ct.MetaData.CopyNew()
 				resL := Try(func() string {
 					eval.DecomposeNTT(lvl, cfg.lp, nbPi, ct.Value[1], ct.IsNTT, eval.BuffDecompQP)
@@ -395,6 +411,20 @@ func c04Scenario(c *Ctx, ps *c04PS, cfg c04KeyCfg, heavy bool) {
 				})
 				c04EmitKs(c, ps, cfg, "autl", ps.ksLine("autl", cfg, isNTT, g, nbPi, &gks[gi].EvaluationKey, in), resL)
 				c.Count("ks:autl")
+				if resL != "err" && resL != "panic" {
+					// division by the KEY's P afterwards: must decrypt to sigma(m) and equal the model
+					outM := rlwe.NewCiphertext(ps.params, 1, lvl)
+					*outM.MetaData = *ct.MetaData
+					resM := Try(func() string {
+						eval.ModDown(lvl, cfg.lp, ctQP, outM)
+						return c04Polys(ps.ctPolys(outM))
+					})
+					c04EmitKs(c, ps, cfg, "autlmd", ps.ksLine("autlmd", cfg, isNTT, g, nbPi, &gks[gi].EvaluationKey, in), resM)
+					c.Count("ks:autlmd")
+					if resM != "err" && resM != "panic" {
+						c04ProbeNoise(c, ps, "automorphism_lazy_decrypts", fmt.Sprintf("%s galEl=%d recvLP=%d", pargs, g, rp), outM, sk, want, bound, class)
+					}
+				}
 			}
 		}
 	}
@@ -426,6 +456,44 @@ func c04GadgetProductTies(c *Ctx, ps *c04PS, eval *rlwe.Evaluator, cfg c04KeyCfg
 		})
 		c04EmitKs(c, ps, cfg, "gpl", ps.ksLine("gpl", cfg, isNTT, 0, 0, evk, in), resL)
 		c.Count("ks:gpl")
+	}
+
+	// hoisted products on the digits of DecomposeNTT; the lazy receiver at a LevelP >= the key's
+	if cfg.lp >= 0 && cfg.w == 0 {
+		nbPi := cfg.lp + 1
+		outH := rlwe.NewCiphertext(ps.params, 1, lvl)
+		outH.IsNTT = isNTT
+		resH := Try(func() string {
+			eval.DecomposeNTT(lvl, cfg.lp, nbPi, ct.Value[1], isNTT, eval.BuffDecompQP)
+			eval.GadgetProductHoisted(lvl, eval.BuffDecompQP, &evk.GadgetCiphertext, outH)
+			return c04Polys(ps.ctPolys(outH))
+		})
+		c04EmitKs(c, ps, cfg, "gph", ps.ksLine("gph", cfg, isNTT, 0, nbPi, evk, in), resH)
+		c.Count("ks:gph")
+		detail := ""
+		if resH != res {
+			detail = "GadgetProductHoisted differs from GadgetProduct"
+		}
+		c.Probe("hoisted_eq_plain", fmt.Sprintf("%s %d %d gp lvl=%d ntt=%s", ps.hdr(), cfg.lq, cfg.lp, lvl, c04B2s(isNTT)), "C04-hoisted-neq-plain", detail)
+
+		rp := cfg.lp + c.rng.Intn(len(ps.P)-cfg.lp)
+		if c04RecvLP >= cfg.lp && c04RecvLP < len(ps.P) {
+			rp = c04RecvLP
+		}
+		ctQP := &rlwe.Element[ringqp.Poly]{}
+		ctQP.Value = []ringqp.Poly{ps.params.RingQP().AtLevel(lvl, rp).NewPoly(), ps.params.RingQP().AtLevel(lvl, rp).NewPoly()}
+		ctQP.MetaData = ct.MetaData.CopyNew()
+		resHL := Try(func() string {
+			eval.DecomposeNTT(lvl, cfg.lp, nbPi, ct.Value[1], isNTT, eval.BuffDecompQP)
+			if err := eval.GadgetProductHoistedLazy(lvl, eval.BuffDecompQP, &evk.GadgetCiphertext, ctQP); err != nil {
+				return "err"
+			}
+			return c04Polys([][][]uint64{
+				ps.canonQP(ctQP.Value[0], lvl, cfg.lp, isNTT, false),
+				ps.canonQP(ctQP.Value[1], lvl, cfg.lp, isNTT, false)})
+		})
+		c04EmitKs(c, ps, cfg, "gphl", ps.ksLine("gphl", cfg, isNTT, 0, nbPi, evk, in), resHL)
+		c.Count("ks:gphl")
 	}
 }
 
@@ -475,6 +543,8 @@ func genC04(c *Ctx) {
 	c04Dims(c)
 	c04DimsSweep(c)
 	c04Witness(c)
+	c04LargePrimes(c)
+	c04HoistedLevels(c)
 	c04Malformed(c)
 	c04DegreeSwitch(c)
 	c04Packing(c)
@@ -483,7 +553,7 @@ func genC04(c *Ctx) {
 	type shape struct{ nQ, nP int }
 	var shapes []shape
 	for nQ := 1; nQ <= 4; nQ++ {
-		for nP := 0; nP <= 2; nP++ {
+		for nP := 0; nP <= 3; nP++ {
 			shapes = append(shapes, shape{nQ, nP})
 		}
 	}
